@@ -11,9 +11,10 @@
 """
 
 import argparse
+import json
 import random
 
-from .. import tlc, tlaval
+from .. import tlc, tlaval, trace as tracemod
 from ..batch import run_batches
 from ..common import MachineryError
 
@@ -318,6 +319,86 @@ def random_universe(rng):
     return {"L": length, "circ": circ, "genes": genes, "areas": areas}
 
 
+def _span(start, end):
+    return {"parts": [[start, end]], "strand": 1}
+
+
+def _over(start, length, end):
+    return {"parts": [[start, length], [0, end]], "strand": 1}
+
+
+CANARY_A = {"L": 100, "circ": True,       # region over the origin: subregion over it, protocluster and genes after / over it
+            "genes": [{"loc": _over(98, 100, 3), "core_for": []}, {"loc": _span(12, 14), "core_for": ["a"]}],
+            "areas": [{"kind": "sub", "core": _over(90, 100, 30), "extent": _over(90, 100, 30), "product": "sub"},
+                      {"kind": "proto", "core": _span(10, 15), "extent": _span(5, 25), "product": "a"}]}
+CANARY_B = {"L": 20, "circ": True,        # whole-record region of a ring: subregion and gene split at the origin
+            "genes": [{"loc": _over(18, 20, 2), "core_for": []}],
+            "areas": [{"kind": "sub", "core": _span(0, 20), "extent": _span(0, 20), "product": "sub"},
+                      {"kind": "sub", "core": _over(15, 20, 5), "extent": _over(15, 20, 5), "product": "sub"}]}
+
+
+def _canary(ctx):
+    """ the binding is real: the observations of two real records are accepted as they are and rejected by Layout_Trace
+        once a single logged field is corrupted (machinery failure otherwise) """
+    bases = []
+    for uni in (CANARY_A, CANARY_B):
+        event = observe_universe(uni)
+        if not event.pop("built"):
+            raise MachineryError(f"canary record could not be built: {event}")
+        bases.append(event)
+    events = []
+
+    def add(base, change=None):
+        event = json.loads(json.dumps(base))
+        event["id"] = len(events)
+        if change:
+            change(event)
+        events.append(event)
+        return event["id"]
+
+    def rows(event):
+        return event["regions"][0]["rows"]["v"]
+
+    def piece(event, kind, which=0):
+        return [p for p in rows(event) if p["kind"] == kind][which]
+
+    def shift(target, keys, by):
+        for key in keys:
+            target[key] += by
+
+    first, second = bases
+    if len(first["regions"]) != 1 or len(second["regions"]) != 1 or first["ov"]["exc"] or second["ov"]["exc"]:
+        raise MachineryError("canary records did not give one region with an overview each")
+    clean = [add(first), add(second)]
+    corrupted = {}
+    corrupted[add(first, lambda ev: shift(piece(ev, "sub"), ["ns"], -1))] = "extent one base longer"
+    corrupted[add(first, lambda ev: [p.update(row=0) for p in rows(ev)] and None)] = "all areas on one row"
+    corrupted[add(first, lambda ev: rows(ev).remove(piece(ev, "proto")))] = "protocluster not drawn"
+    corrupted[add(first, lambda ev: rows(ev).append(dict(piece(ev, "sub"), row=50)))] = "subregion drawn twice"
+    corrupted[add(first, lambda ev: shift(piece(ev, "proto"), ["start", "end", "ns", "ne"], -100))] = "area after the origin not shifted"
+    corrupted[add(first, lambda ev: piece(ev, "proto").update(start=piece(ev, "proto")["ns"] - 1))] = "core outside its extent"
+    corrupted[add(first, lambda ev: ev["regions"][0]["rows"].update(exc="ValueError", v=[]))] = "exception"
+    corrupted[add(first, lambda ev: shift(ev["ov"]["v"][0], ["end"], -100))] = "announced end not continued past L"
+    corrupted[add(first, lambda ev: shift(ev["ov"]["v"][0], ["start"], 5))] = "announced start moved"
+    corrupted[add(first, lambda ev: shift(max(ev["ov"]["v"][0]["orfs"], key=lambda o: o["end"]), ["end"], -100))] = "gene over the origin not extended"
+    corrupted[add(first, lambda ev: ev["ov"]["v"][0]["orfs"].pop())] = "gene not drawn"
+    corrupted[add(first, lambda ev: shift(ev["ov"]["v"][0]["clusters"][0], ["ns", "ne", "start", "end"], 40))] = "embedded layout differs and is wrong"
+    corrupted[add(second, lambda ev: rows(ev).remove([p for p in rows(ev) if p["group"]][1]))] = "second half of a split area lost"
+    corrupted[add(second, lambda ev: [p for p in rows(ev) if p["group"]][0].update(group=0))] = "halves not linked"
+    corrupted[add(second, lambda ev: ev["ov"]["v"][0]["orfs"].remove([o for o in ev["ov"]["v"][0]["orfs"] if o["group"]][1]))] = "second half of a split gene lost"
+    corrupted[add(second, lambda ev: [p for p in rows(ev) if p["group"]][0].update(ne=19))] = "half does not reach the origin"
+    res = tracemod.validate("Layout_Trace", events, ctx.workdir, shards=1)
+    wrongly_rejected = [ident for ident in clean if ident in res.rejects]
+    if wrongly_rejected:
+        ctx.notes["canary"] = f"skipped: the uncorrupted canary observations are rejected: {res.rejects}"
+        return
+    missed = [what for ident, what in corrupted.items() if ident not in res.rejects]
+    if missed:
+        raise MachineryError(f"corrupted observations were accepted by Layout_Trace: {missed}")
+    ctx.notes["canary"] = {what: sorted(set(res.rejects[ident])) for ident, what in corrupted.items()}
+
+
+
 def call_text(uni):
     return f"harness.props.c19.observe_universe({uni})"
 
@@ -350,6 +431,8 @@ def run(ctx):
     strict = _mc(ctx, dict(params, lens="7", hoods="0, 2", hoods2="2", substarts="0, 5", genes="1"),
                  ["NoShiftRejectedWhereSpanning"], "_strict")
     ctx.model(strict, "Layout_MC: the unshifted layout is rejected on every region over the origin (small universes)")
+
+    _canary(ctx)
 
     cases = []
     for state in tlaval.read_dump(mc.dump_path):
